@@ -67,6 +67,12 @@ func (w *World) syncReach(roots ...*ssa.Function) map[*ssa.Function]bool {
 				if g, ok := in.(*ssa.Go); ok {
 					async[g.Call.Value] = true
 				}
+				// a timer callback runs on its own goroutine, later: time.AfterFunc(d, f)
+				if cl, ok := in.(*ssa.Call); ok {
+					if callee := cl.Call.StaticCallee(); callee != nil && callee.String() == "time.AfterFunc" && len(cl.Call.Args) == 2 {
+						async[cl.Call.Args[1]] = true
+					}
+				}
 			}
 		}
 		for _, b := range f.Blocks {
@@ -103,9 +109,16 @@ func (w *World) syncReach(roots ...*ssa.Function) map[*ssa.Function]bool {
 						// only used as the callee of go statements?
 						onlyGo := true
 						for _, ref := range *mc.Referrers() {
-							if _, isGo := ref.(*ssa.Go); !isGo {
-								onlyGo = false
+							if _, isGo := ref.(*ssa.Go); isGo {
+								continue
 							}
+							// the callback argument of time.AfterFunc
+							if cl, isCall := ref.(*ssa.Call); isCall {
+								if callee := cl.Call.StaticCallee(); callee != nil && callee.String() == "time.AfterFunc" && len(cl.Call.Args) == 2 && cl.Call.Args[1] == ssa.Value(mc) {
+									continue
+								}
+							}
+							onlyGo = false
 						}
 						if onlyGo {
 							continue
@@ -1054,17 +1067,27 @@ func checkGoCaptures(c *Ctx) {
 		}
 		for _, b := range f.Blocks {
 			for _, in := range b.Instrs {
-				g, ok := in.(*ssa.Go)
-				if !ok {
+				var startVal ssa.Value
+				switch st := in.(type) {
+				case *ssa.Go:
+					startVal = st.Call.Value
+				case *ssa.Call:
+					// time.AfterFunc(d, f): f runs on its own goroutine
+					if callee := st.Call.StaticCallee(); callee != nil && callee.String() == "time.AfterFunc" && len(st.Call.Args) == 2 {
+						startVal = st.Call.Args[1]
+					}
+				}
+				if startVal == nil {
 					continue
 				}
+				g := in
 				n++
 				key := ssaFuncName(f) + "/go#" + itoa(n)
-				mc, isClosure := g.Call.Value.(*ssa.MakeClosure)
+				mc, isClosure := startVal.(*ssa.MakeClosure)
 				var body *ssa.Function
 				if isClosure {
 					body = mc.Fn.(*ssa.Function)
-				} else if fn, ok := g.Call.Value.(*ssa.Function); ok {
+				} else if fn, ok := startVal.(*ssa.Function); ok {
 					body = fn
 				}
 				if body == nil {
@@ -1170,7 +1193,7 @@ func checkWait(c *Ctx) {
 					continue
 				}
 				callee := call.Call.StaticCallee()
-				if callee == nil || callee.String() != "time.Sleep" {
+				if callee == nil || (callee.String() != "time.Sleep" && callee.String() != "time.AfterFunc") {
 					continue
 				}
 				nSleep++
@@ -1191,8 +1214,21 @@ func checkWait(c *Ctx) {
 		c.ob("C10.R6", waitFn.Name+"/sleep-duration", w.Pos(waitFn.Decl.Pos()), false, "the built-in wait never sleeps")
 	}
 	// completion after the sleep (in each literal that sleeps)
+	// the callbacks of time.AfterFunc: they start after the delay
+	timerCallbacks := map[ast.Node]bool{}
+	ast.Inspect(waitFn.Body, func(n ast.Node) bool {
+		if call, ok := n.(*ast.CallExpr); ok && len(call.Args) == 2 {
+			if callee := calleeOf(info, call); callee != nil && funcFullName(callee) == "time.AfterFunc" {
+				if lit, ok := unparen(call.Args[1]).(*ast.FuncLit); ok {
+					timerCallbacks[lit] = true
+				}
+			}
+		}
+		return true
+	})
 	for _, l := range append([]*Func{waitFn}, w.Lits(waitFn)...) {
-		hasSleep := false
+		hasSleep := timerCallbacks[l.Node()]
+		isTimer := hasSleep
 		walkNoLit(l.Body, func(n ast.Node) bool {
 			if call, ok := n.(*ast.CallExpr); ok {
 				if callee := calleeOf(info, call); callee != nil && funcFullName(callee) == "time.Sleep" {
@@ -1204,8 +1240,12 @@ func checkWait(c *Ctx) {
 		if !hasSleep {
 			continue
 		}
+		startState := ""
+		if isTimer {
+			startState = "SLEEP" // the timer has waited before the callback runs
+		}
 		r := evtRule{
-			start: "",
+			start: startState,
 			prim: func(n ast.Node) []string {
 				switch n := n.(type) {
 				case *ast.CallExpr:
